@@ -233,18 +233,62 @@ def addSameSign (pplus : Variant) (s : St) (negate : Bool) (us vs : Src) : St :=
     let rsize := q.2.1 + q.2.2                                -- :168
     q.1.setSE (if negate then -(rsize : Int) else rsize) (uexp + q.2.2)   -- :169, :172-173
 
-/-- mpf_add (r, u, v), mpf/add.c:26-175, for operands of equal sign or a zero operand (`none`: different signs — the call is
-    handed to mpf_sub, add.c:56-64, not mirrored here). -/
+/- ------------------------------------------------------------------ sub.c (store level) -/
+
+/-- mpf_sub (r, u, v) for non-zero operands of equal sign, mpf/sub.c:65-410, at STORE level.  Every store through `rp` in
+    sub.c is one of `MPN_COPY_INCR (rp, vp, vsize)` (:122, cancellation), `MPN_COPY (rp, up, usize)` (:286 `ediff >= prec`,
+    :297 V out of range), `MPN_COPY (rp, vp, vsize)` (:309) and `MPN_COPY (rp, tp, rsize)` (:402, after the strip of high zero
+    limbs): exactly the rsize result limbs at rp[0, rsize), then the header (:406-409).  The limbs, SIZ and EXP are those of
+    the bit-exact C13 model (`Mpf.subMag`: cancellation scan, x+1 000…/x fff… path, the alignments with borrow, strip), passed
+    in as `F`.  The operands are loaded inside their |SIZ| limbs only (the scan goes down from up[usize-1] / vp[vsize-1], the
+    alignments take sub-ranges): checked as one load of the whole range each.  The TMP area (`prec = PREC + 1` limbs, :199,
+    :280) is allocated; its traffic is NOT index-checked here. -/
+def subStore (s : St) (us vs : Src) (F : Mpf.F) : St :=
+  let a := s.rd us 0 (s.obj us).size.natAbs                   -- up[0, usize)
+  let b := a.2.rd vs 0 (s.obj vs).size.natAbs                 -- vp[0, vsize)
+  let s := b.2.tmpAlloc (s.r.prec + 1)                        -- :199 / :280 tp = TMP_ALLOC (prec limbs), prec = PREC + 1 (:85)
+  (s.wrR 0 F.d).setSE F.size F.exp                            -- :122 / :286 / :297 / :309 / :402, then :406-409
+
+/-- mpf_add (r, u, v), mpf/add.c:26-175.  Operands of different sign (add.c:56-64): `mpf_sub (r, u, &v_negated)` with a
+    local header that shares v's limbs — non-zero operands of equal sign there, i.e. `subStore` with C13's `Mpf.subMag`.
+    (The result stays an `Option` for the callers written before sub.c was mirrored; it is always `some`.) -/
 def mpf_add (pplus : Variant) (s : St) (us vs : Src) : Option St :=
   let usize := (s.obj us).size                                -- add.c:38
   let vsize := (s.obj vs).size                                -- :39
   if usize = 0 then some (if vs ≠ .r then mpf_set 0 s vs else s)          -- :42-48
   else if vsize = 0 then some (if us ≠ .r then mpf_set 0 s us else s)     -- :49-53
-  else if (usize < 0) != (vsize < 0) then none                -- :56-64
+  else if (usize < 0) != (vsize < 0) then                     -- :56-64
+    let v := (s.obj vs).view
+    some (subStore s us vs (Mpf.subMag s.r.prec (decide (usize < 0)) (s.obj us).view { v with size := -v.size }))
   else
     let negate := usize < 0                                   -- :69
     let sw := (s.obj us).exp < (s.obj vs).exp                 -- :72-78 make U the operand with the largest exponent
     some (addSameSign pplus s negate (if sw then vs else us) (if sw then us else vs))
+
+/- ------------------------------------------------------------------ neg.c, sub.c -/
+
+/-- mpf_neg (r, u), mpf/neg.c:25-53 -/
+def mpf_neg (s : St) (x : Src) : St :=
+  let size := -(s.obj x).size                                 -- neg.c:30
+  if x = .r then s.setSE size s.r.exp                         -- :31, :52 (r == u: only the sign)
+  else
+    let prec := s.r.prec + 1                                  -- :37
+    let asize := size.natAbs                                  -- :38
+    let off := if asize > prec then asize - prec else 0       -- :42-46
+    let asize := if asize > prec then prec else asize
+    let s := s.setSE (if size ≥ 0 then asize else -(asize : Int)) (s.obj x).exp   -- :49-50, :52
+    s.copyToR 0 x off asize                                   -- :48 MPN_COPY (rp, up, asize)
+
+/-- mpf_sub (r, u, v), mpf/sub.c:27-411 -/
+def mpf_sub (s : St) (us vs : Src) : St :=
+  let usize := (s.obj us).size                                -- sub.c:38
+  let vsize := (s.obj vs).size                                -- :39
+  if usize = 0 then mpf_neg s vs                              -- :42-46
+  else if vsize = 0 then (if us ≠ .r then mpf_set 0 s us else s)          -- :47-52
+  else if (usize < 0) != (vsize < 0) then                     -- :55-63 mpf_add (r, u, &v_negated): equal signs there
+    let sw := (s.obj us).exp < (s.obj vs).exp                 -- add.c:72-78
+    addSameSign 0 s (usize < 0) (if sw then vs else us) (if sw then us else vs)   -- add.c:69, :80-174
+  else subStore s us vs (Mpf.subMag s.r.prec (decide (usize < 0)) (s.obj us).view (s.obj vs).view)   -- :65-410
 
 /- ------------------------------------------------------------------ mul_2exp.c / div_2exp.c -/
 
